@@ -144,6 +144,8 @@ def excret_into_it(task):
     g = S.mk_group(dict(task, randmem=task['seed']))
     for k in range(task['n']):
         st, pc = S.prep(g, rnd, dict(task, modes='all'), False, 0, k)
+        pc = 8 + 4 * rnd.randrange(28)                       # the handler's instruction: below the return target (0x80..) and the RFE frame (0xC0)
+        st['R']['PC'] = limbs(pc)
         mode = rnd.choice([19, 18, 23, 27, 17])
         bank = {19: 'svc', 18: 'irq', 23: 'abt', 27: 'und', 17: 'fiq'}[mode]
         st['cpsr'] = limbs((C.unlimbs(st['cpsr']) & ~0x1F & ~0x0600FC20) | mode)
